@@ -61,7 +61,7 @@ type Contract struct {
 	Target     string
 	Fn         *ssa.Function
 	UseAtCalls bool
-	OptIn      bool // use-contract applied only where a harness asks for it (use=<target>)
+	OptIn      bool   // use-contract applied only where a harness asks for it (use=<target>)
 	Pkg        string // declaring package: use-contracts apply to harnesses of that package
 	Props      []string
 }
